@@ -23,7 +23,8 @@ class DateTime(Parseable[datetime]):
     def __init__(self, when: datetime, raw: bytes | None = None) -> None:
         super().__init__()
         if when.tzinfo is None:
-            when = when.replace(tzinfo=self.get_local_tzinfo())
+            # local time, with the offset in force at that date
+            when = when.astimezone()
         self.when = when
         self._raw = raw
 
